@@ -16,7 +16,7 @@ Record entry := mkEntry {
   e_firing : list Z; e_resolved : list Z; e_data : list (string * rdv) }.
 Global Instance entry_eq_dec : EqDecision entry. Proof. solve_decision. Defined.
 
-Definition st := gmap string entry.
+Notation st := (gmap string entry) (only parsing).
 
 Definition skey_of (gkey recv : string) : string := gkey +:+ ":" +:+ recv.
 Definition skey (e : entry) : string := skey_of (e_gkey e) (e_recv e).
